@@ -178,6 +178,14 @@ func ruleColumnWindow(c *core.Ctx) {
 			return true
 		})
 	}
+	if !recO {
+		// no `order = order.Reverse()` in a shape the rule reads: positive evidence only when
+		// nothing in the paginator reverses an order at all
+		if len(scopeCalls(scope, named("Reverse"))) == 0 {
+			c.Fail("PAGE/column-window", key+":order", pos(c, d.Decl), "the column paginator never reverses the ORDER BY direction: a `previous` cursor (Reverse) walks in the same direction as `next` and returns the wrong rows")
+			return
+		}
+	}
 	c.Shape(recO, okO, "PAGE/column-window", key+":order", pos(c, d.Decl), "direction reversed iff Reverse", "the column paginator reverses the ORDER BY direction under another condition than `Reverse`: a previous cursor walks in the wrong direction")
 }
 
@@ -327,7 +335,11 @@ func ruleOffsetPaginator(c *core.Ctx) {
 			okO = true
 		}
 	}
-	c.Shape(recO, okO, "PAGE/offset", key+":offset", pos(c, d.Decl), "Offset(query.Offset)", "the offset paginator does not skip the cursor's offset")
+	if !recO {
+		c.Fail("PAGE/offset", key+":offset", pos(c, d.Decl), "the offset paginator never applies an OFFSET: every page is the first page")
+	} else {
+		c.Shape(recO, okO, "PAGE/offset", key+":offset", pos(c, d.Decl), "Offset(query.Offset)", "the offset paginator does not skip the cursor's offset")
+	}
 	// BuildCursor
 	bi := b.Pkg.TypesInfo
 	bkey := declKey(b)
@@ -402,6 +414,7 @@ func rulePaginateDispatch(c *core.Ctx) {
 	scope := fnScope(c, d, 2)
 	// the column/offset choice: composite literals of the two query types built from the initial query
 	recC, okCol, okOff := false, false, false
+	var otherFacts []xfact
 	inScope(scope, func(dd *astx.DeclInfo) {
 		info := dd.Pkg.TypesInfo
 		ast.Inspect(dd.Decl.Body, func(n ast.Node) bool {
@@ -418,6 +431,14 @@ func rulePaginateDispatch(c *core.Ctx) {
 				}
 			}
 			if !pos && !neg {
+				// chosen under some other condition: remember it, to tell a plain field or
+				// comparison (positive evidence of a different criterion) from a helper predicate
+				for _, ft := range xfactsAt(info, dd.Decl.Body, cl.Pos()) {
+					if isErrNilTest(info, ft.Cond) {
+						continue
+					}
+					otherFacts = append(otherFacts, ft)
+				}
 				return true
 			}
 			recC = true
@@ -430,6 +451,10 @@ func rulePaginateDispatch(c *core.Ctx) {
 			return true
 		})
 	})
+	if !recC && len(otherFacts) > 0 && !factsOpaque(c, d.Pkg.TypesInfo, otherFacts) {
+		c.Fail("PAGE/dispatch", key+":paginator-choice", pos(c, d.Decl), "the choice between the column and the offset paginator is not made on the column type's IsPaginated(): the window comparison can be applied to a type it cannot order")
+		recC, okCol, okOff = true, true, true // reported above
+	}
 	c.Shape(recC, okCol && okOff, "PAGE/dispatch", key+":paginator-choice", pos(c, d.Decl), "column paginator iff the column type supports it", "the first page does not choose the column paginator exactly for column types that can be compared with a pagination id (others must use offsets): the window comparison is applied to a type it cannot order")
 	// the final ORDER BY is the paginator's own expression
 	info := d.Pkg.TypesInfo
